@@ -98,13 +98,7 @@ def triggers(triples, fmt, opts=None):
         if un and fmt == "json-ld": t.append("C03-jsonld-unrooted-bnode-cycle")
         if fmt == "json-ld" and any(p in (RDF.first, RDF.rest) for _, p, _ in triples) and not exclusive_resource_lists_only(triples, allow_literals=True):
             t.append("C03-jsonld-malformed-list")
-        if un and roots and fmt == "pretty-xml": t.append("C03-prettyxml-unrooted-bnode-cycle")
     if fmt == "pretty-xml":
-        refs = {}
-        for _, _, o in triples:
-            if isinstance(o, BNode): refs[o] = refs.get(o, 0) + 1
-        if any(isinstance(s_, BNode) and refs.get(s_, 0) >= 2 for s_, _, _ in triples):
-            t.append("C03-prettyxml-shared-bnode-description-lost")
         if any(p_ == RDF.type and isinstance(o, URIRef) and not xml_pred_ok(o) for _, p_, o in triples):
             t.append("C03-prettyxml-type-object-not-qname")
     if fmt == "pretty-xml" and opts and opts.get("bn") == "none" and not any(ns == str(RDF) for _, ns in opts.get("binds", [])):
